@@ -157,6 +157,23 @@ CHECKS['C10'] = dict(
     technique='property-based testing (Hypothesis) over call histories with '
               'a call-log oracle and fake clock')
 
+CHECKS['C12'] = dict(
+    category='exploration', design_ref='DESIGN.md §13 (C12)',
+    text='Hypothesis RuleBasedStateMachine over a real checkpointed sampler: '
+         'rules step / fake-clock timeout step / toggle at any boundary / '
+         'run(discard_exploration=v) / resume / accessor. After every rule: '
+         'explored monotone, bounds frozen (count + contains on probes), '
+         'no empty shell, stored arrays extend the previous snapshot '
+         'byte-for-byte, the visible rows and all statistics equal the '
+         'recomputation from the harness-recorded split, statistics return '
+         'bit-for-bit when a view is revisited, a resumed object is '
+         'self-consistent and bit-identical once given the same flag.',
+    note='Histories are sampled (hundreds per quick run, 30-45 rules each); '
+         'a toggle never followed by a checkpoint write is not required to '
+         'survive a resume.',
+    technique='stateful / model-based property testing (Hypothesis '
+              'RuleBasedStateMachine) with invariants after every rule')
+
 NOT_YET = {}
 
 
